@@ -59,11 +59,17 @@ theorem win_zero {n : Nat} (x : BitVec n) (m : Nat) : BitVec.extractLsb' 0 m x =
   intro j hj
   simp [BitVec.getLsbD_extractLsb', BitVec.getLsbD_setWidth, hj]
 
+theorem win_xor {w : Nat} (a b : BitVec w) (p m : Nat) :
+    BitVec.extractLsb' p m (a ^^^ b) = BitVec.extractLsb' p m a ^^^ BitVec.extractLsb' p m b := by
+  apply BitVec.eq_of_getLsbD_eq
+  intro j hj
+  simp [BitVec.getLsbD_extractLsb', hj]
+
 /-- `seg_lanes`: compute windows of an or-of-shifted-segments image in one pass -/
 syntax "seg_windows" : tactic
 macro_rules
   | `(tactic| seg_windows) => `(tactic|
-    simp (discharger := omega) only [win_or, win_shift_in, win_shift_out, win_in, win_out, extractLsb'_extractLsb'_le, win_zero,
+    simp (discharger := omega) only [win_or, win_xor, win_shift_in, win_shift_out, win_in, win_out, extractLsb'_extractLsb'_le, win_zero,
       BitVec.or_zero, BitVec.zero_or, BitVec.setWidth_eq, Nat.reduceAdd, Nat.reduceSub, Nat.reduceMul])
 
 end SkinnyVerif
